@@ -7,6 +7,7 @@ mod c04;
 mod c06;
 mod c08;
 mod c09;
+mod c09_conn;
 mod c10;
 mod c10_conn;
 mod c11;
